@@ -492,14 +492,7 @@ func c10Senders(c *Ctx) {
 		// overwritten by the next Send while the previous message is still in flight)
 		if len(encs) == 1 {
 			b := strip(encs[0].X.Args[1])
-			fresh := false
-			switch {
-			case b.Op == "call" && nameMatches(b.Name, "bytes.NewBuffer"):
-				fresh = len(b.Args) == 1 && (b.Args[0].Op == "nil" || b.Args[0].Op == "makeslice")
-			case b.Op == "alloc" || b.Op == "complit" || b.Op == "var":
-				_, isAl := b.V.(*ssa.Alloc)
-				fresh = isAl || b.Cell != nil
-			}
+			fresh := freshBuffer(b)
 			c.Check(fresh, "C10.B5-senders", f.Name+" › encode buffer owned by the call", encs[0].In.Pos(), "the message is encoded into a buffer created by this call", "the message is encoded into a buffer that outlives the call ("+abbreviate(b.String())+"): the published bytes are overwritten by a later Send, and the receiver decodes another message than the one sent")
 		}
 	}
@@ -619,6 +612,29 @@ func isParamCell(c *Ctx, x *X, fn *ssa.Function) bool {
 				return true
 			}
 		}
+	}
+	return false
+}
+
+// freshBuffer: the *bytes.Buffer is created by the function at hand (a local
+// value, new(bytes.Buffer), or bytes.NewBuffer over memory not retained
+// elsewhere) — not taken from a pool, a field or a global.
+func freshBuffer(b *X) bool {
+	b = strip(b)
+	if b == nil {
+		return false
+	}
+	switch {
+	case b.Op == "call" && (nameMatches(b.Name, "bytes.NewBuffer") || nameMatches(b.Name, "bytes.NewBufferString")):
+		if len(b.Args) != 1 {
+			return false
+		}
+		a := strip(b.Args[0])
+		// nil, a fresh allocation, or the result of a call (e.g. varint.ToUvarint): not a retained buffer
+		return a.Op == "nil" || a.Op == "makeslice" || a.Op == "call" || a.Op == "const" || a.Op == "convert"
+	case b.Op == "alloc" || b.Op == "complit" || b.Op == "var" || b.Op == "new":
+		_, isAl := b.V.(*ssa.Alloc)
+		return isAl || b.Cell != nil
 	}
 	return false
 }
